@@ -344,7 +344,8 @@ pub fn explore(pool: &Pool, jobs: Vec<(Arc<Scenario>, RunSpec, usize)>, judge: J
             return;
         }
         if let Some(ex) = run_one(w, &scen, &spec, judge, st) {
-            if budget > 0 && !matches!(ex.res.outcome, Outcome::Killed) {
+            // a hang is already a verdict: exploring around it would only spin through the step budget again
+            if budget > 0 && !matches!(ex.res.outcome, Outcome::Killed) && !ex.res.outcome.is_hang() {
                 for c in children(&ex) {
                     more.push((scen.clone(), c, budget - 1));
                 }
